@@ -18,7 +18,9 @@ EXPLANATION = ("For every LdapConn method with a same-named Ldap method, on ever
                "url or Url::parse(url)?) and return its result unmodified; LdapConn::from_url_with_settings builds a current-thread runtime with all "
                "drivers enabled, runs LdapConnAsync::from_url_with_settings(settings, url) on it, on success spawns conn.drive() inside that runtime "
                "and keeps that runtime and the returned handle, on failure returns the error unmodified and spawns nothing. "
-               "EntryStream::next/result/last_id delegate to SearchStream::next/finish/ldap_handle().last_id(). Decided completely for what the type "
+               "EntryStream::next/result/last_id delegate to SearchStream::next/finish/ldap_handle().last_id(); the two stream wrappers are evaluated from every value of the stream's state "
+               "(the stream's `&self` accessors evaluated), and a path that answers by itself is accepted exactly when the asynchronous method, entered with the same state under the same tests, returns the same value "
+               "on every path and does nothing. Decided completely for what the type "
                "checker cannot see: swapped same-typed arguments, a wrong same-typed method, a dropped or altered modifier.")
 TRUSTED = ['tokio current-thread runtime block_on returns the future\'s output']
 UNDECIDED = ['behaviour of the private current-thread runtime (tokio)']
@@ -211,17 +213,44 @@ def check_delegation(ctx, f, B, m, ap, recv_place, rt_place, rule='D'):
     """Path-level: every path makes exactly one call of the asynchronous sibling, on the right receiver, with the method's own
     parameters in order, drives it on the right runtime, and returns what that call produced (unmodified, or wrapped as
     EntryStream { stream, conn: self } for the streaming searches), with no other effect."""
-    outs, _I = sem.paths(f, B, summaries=SUMMARIES, combinators=True)
+    # (E) the stream wrappers: the sibling's receiver has a finite state (the field of the stream whose type is a fieldless enum), so
+    # the wrapper is evaluated once from each value of it - a test of the state is then decided, however it is spelled - with the
+    # stream's own `&self` accessors evaluated (state() is a read of that field, not an effect)
+    dom = sem.finite_state_field(f, ap) if rule == 'E' else None
+    if dom is not None:
+        own_ty = (f.items.get(ap) or {}).get('impl_self')
+        def accessor(cal):
+            it = f.items.get(cal) or {}
+            return cal != ap and cal in f.hir and it.get('impl_self') == own_ty and not it.get('asyncness') and bool(it.get('inputs')) and it['inputs'][0].startswith('&') and not it['inputs'][0].startswith('&mut ')
+        outs = []
+        for val in dom[1]:
+            I = absx.Interp(f, B, summaries=SUMMARIES, combinators=True, inline=accessor)
+            outs += [(val, o) for o in I.run(root=sem.entry(B), heap={('field', recv_place, dom[0]): val}) if o.kind in ('val', 'ret', 'div', 'loop')]
+    else:
+        outs = [(None, o) for o in sem.paths(f, B, summaries=SUMMARIES, combinators=True)[0]]
     params = own_params(B)[1:]
     is_async = is_async_fn(f, ap)
     short = ap.rsplit('::', 1)[-1]
     family = ap.rsplit('::', 1)[0] + '::'
     n = 0
-    for o in outs:
+    for state, o in outs:
         if o.kind not in ('val', 'ret'):
             ctx.fail(rule + '.delegates', m, loc(B.root), 'a path of %s does not return (%s)' % (m, o.kind)); continue
         n += 1
         cs = sem.calls(o, lambda c: c == ap)
+        if not cs and state is not None and not sem.calls(o, lambda c: c.startswith(family) and not accessor(c)):
+            # a path of the wrapper that answers by itself.  Acceptable exactly when the sibling, entered in the case the path
+            # selects - this value of the state, and whatever else the path tested, carried over as assumptions about the sibling's
+            # own receiver -, returns the same value on every path and does nothing: then the test is the sibling's own first test
+            # made early.  Otherwise the wrapper answers where the asynchronous method would have gone on
+            same, diff = pretest_agrees(f, ap, recv_place, dom[0], state, o)
+            extra = effects(o)
+            ctx.add(rule + '.pre-test-agrees-with-sibling', '%s|%s' % (m, state[1].rsplit('::', 1)[-1]), loc(B.root), same and not extra,
+                    '%s answers %s by itself, without calling its sibling %s, on a path with state %s%s; %s' % (
+                        m, absx.fmt(o.val)[:40], short, state[1].rsplit('::', 1)[-1],
+                        ''.join(' and %s%s' % ('' if t else 'not ', absx.fmt(a)[:60]) for a, t in o.st.pc),
+                        ('entered in that case the sibling ' + diff) if not same else 'the wrapper does something else besides: %s' % extra[:3]))
+            continue
         if len(cs) != 1:
             others = sorted({c[1] for c in sem.calls(o, lambda c: c.startswith(family) and c != ap)})
             if not cs and others:
@@ -252,6 +281,26 @@ def check_delegation(ctx, f, B, m, ap, recv_place, rt_place, rule='D'):
         ctx.add(rule + '.no-extra-effects', m, loc(B.root), not extra, '%s does something besides delegating: %s' % (m, extra[:3]))
     ctx.add(rule + '.delegates', m + '|paths', loc(B.root), n >= 1, 'no path of %s returns' % m)
 
+
+def pretest_agrees(f, ap, recv_place, state_field, state, o):
+    """Does the sibling `ap`, entered with its receiver in `state` and under the wrapper path's condition (atoms about the wrapper's
+    stream carried over to the sibling's `self`), return the wrapper path's value on every path, with no effect?  -> (bool, why not)"""
+    AB = hirq.Body(f, f.hir[ap])
+    to_callee = lambda t: map_term(t, lambda x: SELF if x == recv_place else None)
+    pc = tuple((to_callee(a), t) for a, t in o.st.pc)
+    I = absx.Interp(f, AB, summaries=SUMMARIES, combinators=True)
+    st = absx.St(I.param_env(), {('field', SELF, state_field): state}, (), pc)
+    want = to_callee(o.val)
+    n = 0
+    for c in I.ev(sem.entry(AB), st):
+        n += 1
+        did = [e for e in c.st.ev if e[0] not in SKIP_EVENTS and not (e[0] == 'call' and e[1].rsplit('::', 1)[-1] in absx.PURE_OBSERVERS)]      # (reading a length is not doing something)
+        if did:
+            e = did[0]
+            return False, 'goes on: %s %s' % (e[0], (e[1] if isinstance(e[1], str) else absx.fmt(e[1]))[:70])
+        if c.kind not in ('val', 'ret') or sem.strip_site(c.val) != sem.strip_site(want):
+            return False, 'ends with %s %s' % (c.kind, absx.fmt(c.val)[:60])
+    return n > 0, 'has no path'
 
 # ---------------------------------------------------------------------------------------
 # (B) same behaviour as the asynchronous body
